@@ -7,6 +7,8 @@ import GSV.Lemmas.Sum
 import GSV.RealInst
 import Mathlib.Analysis.SpecialFunctions.Trigonometric.Deriv
 import Mathlib.Algebra.BigOperators.Field
+import Mathlib.Analysis.SpecialFunctions.Integrals.Basic
+import Mathlib.MeasureTheory.Integral.Bochner.Basic
 namespace GSV.Incompr
 open GSV GSV.Props Finset
 
@@ -69,7 +71,89 @@ theorem hasDerivAt_mode (a z1 z2 : ℝ) {φ : ℝ → ℝ} {φ' t : ℝ} (h : Ha
     HasDerivAt (fun s => a * (z1 * Real.cos (φ s) + z2 * Real.sin (φ s)))
       (a * (z2 * Real.cos (φ t) - z1 * Real.sin (φ t)) * φ') t := by
   have := ((h.cos.const_mul z1).add (h.sin.const_mul z2)).const_mul a
-  convert this using 1
+  refine HasDerivAt.congr_deriv this ?_
   ring
+
+/-! ### elementary integrals used by the variance split -/
+
+open intervalIntegral in
+/-- `∫_{-1}^{1} (c₀ + c₂ w² + c₄ w⁴) dw` -/
+theorem integral_even_quartic (c0 c2 c4 : ℝ) :
+    ∫ w in (-1:ℝ)..1, (c0 + c2 * w ^ 2 + c4 * w ^ 4) = 2 * c0 + 2 / 3 * c2 + 2 / 5 * c4 := by
+  have h0 : IntervalIntegrable (fun _ : ℝ => c0) MeasureTheory.volume (-1) 1 := intervalIntegrable_const
+  have h2 : IntervalIntegrable (fun w : ℝ => c2 * w ^ 2) MeasureTheory.volume (-1) 1 :=
+    (by fun_prop : Continuous fun w : ℝ => c2 * w ^ 2).intervalIntegrable _ _
+  have h4 : IntervalIntegrable (fun w : ℝ => c4 * w ^ 4) MeasureTheory.volume (-1) 1 :=
+    (by fun_prop : Continuous fun w : ℝ => c4 * w ^ 4).intervalIntegrable _ _
+  rw [integral_add (h0.add h2) h4, integral_add h0 h2, integral_const, integral_const_mul,
+    integral_const_mul, integral_pow, integral_pow]
+  norm_num
+  ring
+
+theorem integral_cos_sq_two_pi : ∫ a in (0:ℝ)..(2 * Real.pi), Real.cos a ^ 2 = Real.pi := by
+  rw [integral_cos_sq]
+  simp only [Real.sin_zero, Real.sin_two_pi, Real.cos_zero, Real.cos_two_pi]
+  ring
+
+theorem integral_cos_pow_four_two_pi : ∫ a in (0:ℝ)..(2 * Real.pi), Real.cos a ^ 4 = 3 * Real.pi / 4 := by
+  rw [show (4:ℕ) = 2 + 2 from rfl, integral_cos_pow, integral_cos_sq]
+  simp only [Real.sin_zero, Real.sin_two_pi, Real.cos_zero, Real.cos_two_pi]
+  norm_num
+  ring
+
+theorem integral_sin_pow_four_two_pi : ∫ a in (0:ℝ)..(2 * Real.pi), Real.sin a ^ 4 = 3 * Real.pi / 4 := by
+  rw [show (4:ℕ) = 2 + 2 from rfl, integral_sin_pow, integral_sin_sq]
+  simp only [Real.sin_zero, Real.sin_two_pi, Real.cos_zero, Real.cos_two_pi]
+  norm_num
+  ring
+
+theorem integral_sin_sq_mul_cos_sq_two_pi :
+    ∫ a in (0:ℝ)..(2 * Real.pi), Real.sin a ^ 2 * Real.cos a ^ 2 = Real.pi / 4 := by
+  rw [integral_sin_sq_mul_cos_sq]
+  have : Real.sin (4 * (2 * Real.pi)) = 0 := by
+    rw [show 4 * (2 * Real.pi) = ((8:ℕ):ℝ) * Real.pi by push_cast; ring]
+    exact Real.sin_nat_mul_pi 8
+  rw [this]
+  simp
+  ring
+
+open intervalIntegral in
+/-- `∫_0^{2π} (A + B cos² a + C cos⁴ a) da` -/
+theorem integral_cos_quartic_two_pi (A B C : ℝ) :
+    ∫ a in (0:ℝ)..(2 * Real.pi), (A + B * Real.cos a ^ 2 + C * Real.cos a ^ 4)
+      = 2 * Real.pi * A + Real.pi * B + 3 * Real.pi / 4 * C := by
+  have h0 : IntervalIntegrable (fun _ : ℝ => A) MeasureTheory.volume 0 (2 * Real.pi) := intervalIntegrable_const
+  have h2 : IntervalIntegrable (fun a : ℝ => B * Real.cos a ^ 2) MeasureTheory.volume 0 (2 * Real.pi) :=
+    (by fun_prop : Continuous fun a : ℝ => B * Real.cos a ^ 2).intervalIntegrable _ _
+  have h4 : IntervalIntegrable (fun a : ℝ => C * Real.cos a ^ 4) MeasureTheory.volume 0 (2 * Real.pi) :=
+    (by fun_prop : Continuous fun a : ℝ => C * Real.cos a ^ 4).intervalIntegrable _ _
+  rw [integral_add (h0.add h2) h4, integral_add h0 h2, integral_const, integral_const_mul,
+    integral_const_mul, integral_cos_sq_two_pi, integral_cos_pow_four_two_pi]
+  simp
+  ring
+
+/-! ### second moment of a combination of orthonormal random variables -/
+
+open MeasureTheory in
+theorem integral_sq_sum_orthonormal {Ω : Type} [MeasurableSpace Ω] (μ : Measure Ω) (N : Nat)
+    (a : Nat → ℝ) (ξ : Nat → Ω → ℝ)
+    (hint : ∀ i < N, ∀ j < N, Integrable (fun ω => ξ i ω * ξ j ω) μ)
+    (horth : ∀ i < N, ∀ j < N, ∫ ω, ξ i ω * ξ j ω ∂μ = if i = j then 1 else 0) :
+    ∫ ω, (∑ j ∈ range N, a j * ξ j ω) ^ 2 ∂μ = ∑ j ∈ range N, a j ^ 2 := by
+  have hsq : ∀ ω, (∑ j ∈ range N, a j * ξ j ω) ^ 2 =
+      ∑ i ∈ range N, ∑ j ∈ range N, (a i * a j) * (ξ i ω * ξ j ω) := by
+    intro ω
+    rw [sq, sum_mul_sum]
+    exact sum_congr rfl fun i _ => sum_congr rfl fun j _ => by ring
+  simp only [hsq]
+  rw [integral_finsetSum _ fun i hi => integrable_finsetSum _ fun j hj =>
+    (hint i (mem_range.mp hi) j (mem_range.mp hj)).const_mul _]
+  refine sum_congr rfl fun i hi => ?_
+  rw [integral_finsetSum _ fun j hj => (hint i (mem_range.mp hi) j (mem_range.mp hj)).const_mul _]
+  have : ∀ j ∈ range N, ∫ ω, a i * a j * (ξ i ω * ξ j ω) ∂μ = if i = j then a i * a j else 0 := by
+    intro j hj
+    rw [integral_const_mul, horth i (mem_range.mp hi) j (mem_range.mp hj)]
+    split <;> simp
+  rw [sum_congr rfl this, sum_ite_eq, if_pos hi, sq]
 
 end GSV.Incompr
